@@ -101,6 +101,8 @@ func runC13(c *engine.Ctx, tier string) {
 	// (4) addressing
 	addressing(c, sp, err)
 	targetResolution(c)
+	operationChecks(c)
+	transactionBuilt(c)
 	limitWiring(c)
 	// "a path that is not a writable model path": the model check is made on the rendered path string, so a
 	// '/' inside one element's name must not render as an element boundary
@@ -283,13 +285,17 @@ func targetResolution(c *engine.Ctx) {
 		}
 		plug := getPlugin.Canon
 		want := map[string]func(string) bool{
-			"targetID":      func(v string) bool { return v == T },
-			"plugin":        func(v string) bool { return v == plug },
-			"targetType":    func(v string) bool { return v == "config/v2.TargetType({"+plug+"}pluginregistry.ModelPlugin.GetInfo().Info.Name)" },
-			"targetVersion": func(v string) bool { return v == "config/v2.TargetVersion({"+plug+"}pluginregistry.ModelPlugin.GetInfo().Info.Version)" },
-			"persistent":    func(v string) bool { return strings.HasSuffix(v, "topo.Configurable).Persistent") },
-			"updates":       func(v string) bool { return strings.HasPrefix(v, "make(") },
-			"removes":       func(v string) bool { return strings.HasPrefix(v, "make(") },
+			"targetID": func(v string) bool { return v == T },
+			"plugin":   func(v string) bool { return v == plug },
+			"targetType": func(v string) bool {
+				return v == "config/v2.TargetType({"+plug+"}pluginregistry.ModelPlugin.GetInfo().Info.Name)"
+			},
+			"targetVersion": func(v string) bool {
+				return v == "config/v2.TargetVersion({"+plug+"}pluginregistry.ModelPlugin.GetInfo().Info.Version)"
+			},
+			"persistent": func(v string) bool { return strings.HasSuffix(v, "topo.Configurable).Persistent") },
+			"updates":    func(v string) bool { return strings.HasPrefix(v, "make(") },
+			"removes":    func(v string) bool { return strings.HasPrefix(v, "make(") },
 		}
 		for _, f := range []string{"targetID", "plugin", "targetType", "targetVersion", "persistent", "updates", "removes"} {
 			if v, ok := fields[f]; !ok || !want[f](v) {
@@ -701,6 +707,209 @@ func wholeStringValidity(c *engine.Ctx) {
 			o.Fail(&engine.Violation{Key: "utils/path.IsPathValid|accepts without a whole-string match", Pos: c.P.Pos(last.Pos), Func: p.Root.Name(),
 				Msg:   "nil is returned on a path that does not establish that the whole path matches (neither path == FindString(path) nor MatchString on an expression anchored with ^…$)",
 				Found: engine.LitsString(engine.CondsBefore(p, len(p.Events)-1))})
+		}
+	}
+}
+
+// operationChecks: C13.8. Inside the per-operation helpers and the functions that build the
+// transaction, a failed check ends the function with that error and records nothing, and an operation
+// is recorded only after the checks of its kind went through.
+func operationChecks(c *engine.Ctx) {
+	ps, err := c.A.PathsOpt(pkgNbGnmi, engine.PathOpts{Roots: []string{".Server.doUpdateOrReplace", ".Server.doDelete", "v2.computeChange", "v2.computeChanges", "v2.newTransaction"}, NoInline: true})
+	if err != nil || len(ps) == 0 {
+		o := c.Custom("C13.8", "load", "paths of the operation helpers", "")
+		o.Undecided(pkgNbGnmi, fmt.Sprintf("no paths: %v", err))
+		o.Done(0)
+		return
+	}
+	upd := engine.Sel{Field: "northbound/gnmi/v2.targetInfo.updates[]"}
+	rem := engine.Sel{Field: "northbound/gnmi/v2.targetInfo.removes"}
+	const (
+		find   = "utils/path.FindPathFromModel"
+		conv   = "utils/v2/values.GnmiTypedValueToNativeType"
+		keychk = "utils/path.CheckKeyValue"
+		jsonpv = "pluginregistry.ModelPlugin.GetPathValues"
+		newcv  = "utils/v2/values.NewChangeValue"
+	)
+	for i, x := range []struct {
+		root, callee string
+		min          int
+	}{
+		{"doUpdateOrReplace", find, 1}, {"doUpdateOrReplace", conv, 1}, {"doUpdateOrReplace", keychk, 1}, {"doUpdateOrReplace", jsonpv, 1},
+		{"doDelete", find, 1},
+		{"computeChange", newcv, 2}, {"computeChanges", "northbound/gnmi/v2.computeChange", 1}, {"newTransaction", "northbound/gnmi/v2.computeChanges", 1},
+	} {
+		c.Outcome(engine.Outcome{ID: fmt.Sprintf("C13.8%c", 'a'+i), Pkg: pkgNbGnmi, Root: x.root, Min: x.min, PathsOverride: ps,
+			When: "#everFailed(" + x.callee + ")", MustNot: []engine.Sel{upd, rem}, Returns: "err!=nil",
+			Why: "a refusal by " + x.callee + " inside " + x.root + " is the refusal of the Set: it is returned, and the operation is not recorded"})
+	}
+	jv := "{{$Update}gnmi.Update.GetVal()}gnmi.TypedValue.GetJsonVal()"
+	c.Guard(engine.Guard{ID: "C13.8i", Pkg: pkgNbGnmi, Min: 2, Sel: upd, PathsOverride: ps,
+		Require: "(" + jv + " != nil && #ok(" + jsonpv + ")) || (" + jv + " == nil && #ok(" + find + ") && #ok(" + conv + ") && #ok(" + keychk + "))",
+		Why:     "an update is recorded only after the model accepted it: a JSON document through the plugin's GetPathValues, a scalar through the writable-path, type and list-key checks"})
+	c.Guard(engine.Guard{ID: "C13.8j", Pkg: pkgNbGnmi, Min: 1, Sel: rem, PathsOverride: ps,
+		Require: "#ok(" + find + ")",
+		Why:     "a delete is recorded only for a path the model knows as writable"})
+	keyValuesChecked(c, "C13.12", ps)
+}
+
+// keyValuesChecked: the text of an operation's path is what is logged, stored, parsed again by the apply
+// step and reported back. Every list key value of it is held against the key-value pattern before the
+// operation is recorded — for deletes as for updates, for every key and not just the first.
+func keyValuesChecked(c *engine.Ctx, id string, ps []*engine.Path) {
+	const chk = "northbound/gnmi/v2.checkPathIndexValues"
+	jv := "{{$Update}gnmi.Update.GetVal()}gnmi.TypedValue.GetJsonVal()"
+	c.Guard(engine.Guard{ID: id + "a", Pkg: pkgNbGnmi, Min: 1, PathsOverride: ps,
+		Sel:     engine.Sel{Field: "northbound/gnmi/v2.targetInfo.removes"},
+		Require: "#ok(" + chk + ")",
+		Why:     "a delete path whose key values the path parser would refuse (an empty value renders as [k=]) must be refused, not committed: the stored text can never be read back and the target's proposals block behind it"})
+	c.Guard(engine.Guard{ID: id + "b", Pkg: pkgNbGnmi, Min: 2, PathsOverride: ps,
+		Sel:     engine.Sel{Field: "northbound/gnmi/v2.targetInfo.updates[]"},
+		Require: jv + " != nil || #ok(" + chk + ")",
+		Why:     "the same for the path of a scalar update (the paths of a JSON document come from the model plugin)"})
+	o := c.Custom(id+"c", "helper shape(checkPathIndexValues)", "checkPathIndexValues ranges over every index value ExtractIndexNames finds in the path and returns the error of CheckPathIndexIsValid for the first that fails; nil only after all passed",
+		"every key value, not only the first")
+	defer o.Done(1)
+	hp, err := c.A.PathsOpt(pkgNbGnmi, engine.PathOpts{Roots: []string{"v2.checkPathIndexValues"}, NoInline: true})
+	if err != nil || len(hp) == 0 {
+		o.Undecided(chk, fmt.Sprintf("no paths: %v", err))
+		return
+	}
+	iterRange := "utils/path.ExtractIndexNames($path).1"
+	for _, p := range hp {
+		last := &p.Events[len(p.Events)-1]
+		if last.Kind != engine.EvReturn || len(last.Results) != 1 {
+			continue
+		}
+		o.Eval(1)
+		o.Site("")
+		var loop, call *engine.Event
+		failed := false
+		for i := range p.Events {
+			e := &p.Events[i]
+			switch {
+			case e.Kind == engine.EvLoopEnter:
+				loop = e
+			case e.Kind == engine.EvCall && e.CalleeName == "utils/path.CheckPathIndexIsValid":
+				call = e
+			case e.Kind == engine.EvCond && call != nil && e.Lit.L == "err("+call.Canon+")" && e.Lit.RNil && e.Lit.Mask == 5:
+				failed = true
+			}
+		}
+		switch {
+		case loop == nil || loop.Range != iterRange:
+			o.Fail(&engine.Violation{Key: chk + "|range", Pos: c.P.Pos(last.Pos), Func: p.Root.Name(), Msg: "the helper does not range over the index values of the path (ExtractIndexNames(path), second result)"})
+			return
+		case call != nil && (len(call.Args) != 1 || call.Args[0] != "elem("+iterRange+")"):
+			o.Fail(&engine.Violation{Key: chk + "|argument", Pos: c.P.Pos(call.Pos), Func: p.Root.Name(), Msg: "CheckPathIndexIsValid is not applied to the iterated index value: " + c.Render(strings.Join(call.Args, ","))})
+			return
+		case failed && last.Results[0] == "nil":
+			o.Fail(&engine.Violation{Key: chk + "|failure dropped", Pos: c.P.Pos(last.Pos), Func: p.Root.Name(), Msg: "an index value that fails the check does not make the helper return an error"})
+			return
+		}
+	}
+}
+
+// transactionBuilt: C13.11. What is logged is what was collected, target by target and path by path.
+func transactionBuilt(c *engine.Ctx) {
+	o := c.Custom("C13.11", "K-dataflow(collected operations → transaction)", "computeChange: every update (path, value) becomes values[path] = NewChangeValue(path, value, false), every remove values[path] = NewChangeValue(path, empty, true), and the PathValues returned carries that map; computeChanges: changes[target id] = computeChange(that target) and that map is returned; newTransaction: Change.Values = computeChanges(targets), TargetVersionOverrides, TransactionStrategy and Username are the arguments, and the literal is what is returned",
+		"each operation lands on exactly the target and path so named — the transaction record is the only thing the controllers see of the request")
+	defer o.Done(3)
+	ps, err := c.A.PathsOpt(pkgNbGnmi, engine.PathOpts{Roots: []string{"v2.computeChange", "v2.computeChanges", "v2.newTransaction"}, NoInline: true})
+	if err != nil || len(ps) == 0 {
+		o.Undecided(pkgNbGnmi, fmt.Sprintf("no paths: %v", err))
+		return
+	}
+	reported := map[string]bool{}
+	fail := func(p *engine.Path, msg string) {
+		if !reported[msg] {
+			reported[msg] = true
+			last := len(p.Events) - 1
+			o.Fail(&engine.Violation{Key: p.Root.Name() + "|" + msg, Pos: c.P.Pos(p.Events[last].Pos), Func: p.Root.Name(), Msg: msg, Path: c.PathTrace(p, last)})
+		}
+	}
+	base := func(s string) string { // strip version
+		if i := strings.Index(s, "#"); i >= 0 {
+			return s[:i]
+		}
+		return s
+	}
+	seen := map[string]bool{}
+	for _, p := range ps {
+		last := &p.Events[len(p.Events)-1]
+		if last.Kind != engine.EvReturn || len(last.Results) != 2 || last.Results[1] != "nil" {
+			continue
+		}
+		o.Eval(1)
+		name := p.Root.Name()[strings.LastIndex(p.Root.Name(), ".")+1:]
+		seen[name] = true
+		iter := map[string]bool{}
+		writes := map[string]string{}
+		fields := map[string]string{}
+		for i := range p.Events {
+			e := &p.Events[i]
+			switch {
+			case e.Kind == engine.EvLoopEnter && e.Range != "":
+				// iterated unless the very next event closes the loop
+				if i+1 < len(p.Events) && p.Events[i+1].Kind != engine.EvLoopExit {
+					iter[e.Range] = true
+				}
+			case e.Kind == engine.EvWrite && e.Field == "" || e.Kind == engine.EvWrite && !strings.Contains(e.Field, "."):
+				writes[base(e.LHS)] = e.RHS
+			case e.Kind == engine.EvWrite:
+				fields[e.Field] = e.RHS
+			}
+		}
+		switch name {
+		case "computeChange":
+			m := ""
+			if v, ok := fields["config/v2.PathValues.Values"]; ok {
+				m = base(v)
+			}
+			if !strings.HasPrefix(m, "make(map[string]*config/v2.PathValue)") || !strings.HasPrefix(last.Results[0], "&config/v2.PathValues{Values:"+m) {
+				fail(p, "the change returned for a target does not carry the map the operations were collected in")
+				continue
+			}
+			if iter["$targetInfo.updates"] {
+				if got := writes[m+"[key($targetInfo.updates)]"]; got != "utils/v2/values.NewChangeValue(key($targetInfo.updates),*elem($targetInfo.updates),false)" {
+					fail(p, "an update is not logged as values[path] = NewChangeValue(path, value, false): "+c.Render(got))
+				}
+			}
+			if iter["$targetInfo.removes"] {
+				if got := writes[m+"[elem($targetInfo.removes)]"]; got != "utils/v2/values.NewChangeValue(elem($targetInfo.removes),*config/v2.NewTypedValueEmpty(),true)" {
+					fail(p, "a delete is not logged as values[path] = NewChangeValue(path, empty, true): "+c.Render(got))
+				}
+			}
+		case "computeChanges":
+			m := base(last.Results[0])
+			if !strings.HasPrefix(m, "make(map[config/v2.TargetID]*config/v2.PathValues)") {
+				fail(p, "computeChanges does not return the map it fills")
+				continue
+			}
+			if iter["$targets"] {
+				if got := writes[m+"[key($targets)]"]; got != "northbound/gnmi/v2.computeChange(elem($targets))" {
+					fail(p, "a target's change is not logged under that target's id: "+c.Render(got))
+				}
+			}
+		case "newTransaction":
+			for f, want := range map[string]string{
+				"config/v2.ChangeTransaction.Values":           "northbound/gnmi/v2.computeChanges($targets)",
+				"config/v2.Transaction.TargetVersionOverrides": "$TargetVersionOverrides",
+				"config/v2.Transaction.TransactionStrategy":    "$TransactionStrategy",
+				"config/v2.Transaction.Username":               "$username",
+			} {
+				if fields[f] != want {
+					fail(p, "the transaction's "+f[strings.LastIndex(f, ".")+1:]+" is "+c.Render(fields[f])+" where "+c.Render(want)+" is required")
+				}
+			}
+			if !strings.HasPrefix(last.Results[0], "&config/v2.Transaction{") {
+				fail(p, "newTransaction does not return the record it built")
+			}
+		}
+	}
+	for _, n := range []string{"computeChange", "computeChanges", "newTransaction"} {
+		if seen[n] {
+			o.Site(n)
 		}
 	}
 }
